@@ -26,6 +26,8 @@ structure St where
   events : List String := []
   hasAdv : Bool := false
   retryMs : Nat := 0               -- retry timeout of the breaker rule loaded in the setup (C16)
+  setupClock : Nat := 0            -- virtual ms moved by the (sequential) setup so far
+  setupOpenAt : Option Nat := none -- `setupClock` when a completion of the setup last opened the breaker (start of its retry timeout)
   deriving Inhabited
 
 def isThreadOp (name : String) : Option Nat :=
@@ -209,7 +211,12 @@ def specProbes (st : St) (v : Verdict) (i : Nat) : Verdict :=
   let inRun := (st.log.filter (fun e => e.getD 1 "" == "note" && (e.getD 2 "").startsWith "ev=")).length
   let before := (st.events.take (st.events.length - inRun)).filterMap parseEvent
   let init : CState := ((before.filterMap (fun e => e.2.1)).getLast?).getD .closed
-  let fin := st.log.foldl step { state := init }
+  -- an Open phase left behind by the setup: its retry deadline, in ms since the start of the schedule, is not before the
+  -- opening completion's time plus the retry timeout (the setup clock has moved on by `setupClock - at` since)
+  let initDeadline : Option Nat := match init, st.setupOpenAt with
+    | .opn, some at_ => some (at_ + st.retryMs - st.setupClock)
+    | _, _ => none
+  let fin := st.log.foldl step { state := init, deadlineLo := initDeadline }
   match fin.bad with
   | some m => v.setViol s!"step={i} {m}"
   | none => v
@@ -262,6 +269,15 @@ def stepCase (prop : String) (st : St) (v : Verdict) (i : Nat) (opText obs : Str
         if op_ > pass || ob > block || occ > complete then
           v.setViol s!"step={i} totals of '{res}' exceed what was recorded: pass={op_}/{pass} block={ob}/{block} complete={occ}/{complete}"
         else v
+    -- response-time total: never more than the sum of the entries' own round trips (each bounded by the virtual clock read
+    -- before its build and after its exit); without clock steps, never less than the sum of the lower bounds either
+    let v :=
+      match (obsField obs "rt").toNat?, (obsField obs "rtlo").toNat?, (obsField obs "rthi").toNat? with
+      | some rt, some lo, some hi =>
+        if rt > hi then v.setViol s!"step={i} response-time total of '{res}' is {rt} ms, the exited entries' own round trips sum to at most {hi} ms"
+        else if !st.hasAdv && rt < lo then v.setViol s!"step={i} response-time total of '{res}' is {rt} ms, the exited entries' own round trips sum to at least {lo} ms"
+        else if hi > 0 then v.addTag "rt-nonzero" else v
+      | _, _, _ => v
     (st, v)
   | "brstate" =>
     if obs == "skipped-after-abort" then (st, v) else
@@ -276,6 +292,15 @@ def stepCase (prop : String) (st : St) (v : Verdict) (i : Nat) (opText obs : Str
     -- a rule loaded in the setup (C14: a throttling or isolation rule on the shared resource): throttling waits move the
     -- virtual clock, so the activity no longer falls within one statistic bucket
     ({ st with hasAdv := st.hasAdv || prop == "C14" }, v.addTag "rule-loaded")
+  | "adv" => ({ st with setupClock := st.setupClock + (((op.get? "ms").bind String.toNat?).getD 0) }, v)
+  | "sbuild" | "sexit" =>
+    -- setup calls report the notifications they caused; a completion that opens the breaker starts its retry timeout
+    let evs := ((obsField obs "evs").splitOn ",").filterMap parseEvent
+    let st := match (evs.filterMap (fun e => e.2.1)).getLast? with
+      | some .opn => if op.name == "sexit" then { st with setupOpenAt := some st.setupClock } else st
+      | some _ => { st with setupOpenAt := none }
+      | none => st
+    (st, v)
   | "probe" =>
     if obs == "skipped-after-abort" then (st, v) else
     (st, if obs == "healthy" then v.addTag "probe-healthy" else v.setViol s!"step={i} after the concurrent calls a manager no longer works: {obs}")
